@@ -98,8 +98,8 @@ def build_case(par, numbering, opts, rng, queries=True):
     # geometry (exact rationals): actual proximal by the definition, distal = actual proximal + L * axis
     aprox, dist, prox = [None] * n, [None] * n, [None] * n
     for k in range(n):
-        if k == 0:
-            prox[k] = (F(rng.choice([0, 0, 1, -2])), F(0), F(rng.choice([0, 3])), rng.choice(DIAMS))
+        if par[k] < 0:                            # a root (k == 0; k > 0 only in the forest stream)
+            prox[k] = (F(rng.choice([0, 0, 1, -2])), F(2 * k), F(rng.choice([0, 3])), rng.choice(DIAMS))
             ap = prox[k]
         else:
             hasp, f = opts[k]
@@ -125,7 +125,7 @@ def build_case(par, numbering, opts, rng, queries=True):
     segs = []
     for k in order:
         s = {"id": idof[k], "par": None, "prox": None, "dist": [sstr(c) for c in dist[k]]}
-        if k > 0:
+        if par[k] >= 0:
             s["par"] = [idof[par[k]], sstr(opts[k][1])]
         if prox[k] is not None:
             s["prox"] = [sstr(c) for c in prox[k]]
@@ -146,6 +146,8 @@ def add_queries(case, rng):
     case["pairs"] = [[root, i] for i in some] + [[0, i] for i in some[:3]] + [[other, rng.choice(idl)], [rng.choice(idl), other]]
     ds = [F(0), F(rng.randint(0, 12), 2), F(rng.randint(0, 40), 4), F(rng.randint(0, 8 + 2 * n))]
     case["atd"] = [[sstr(d), root] for d in ds] + [[sstr(ds[1]), other], [sstr(ds[2]), 0]]
+    if rng.random() < 0.2:
+        case["atd"].append([sstr(F(-rng.randint(1, 6), 2)), root])     # negative: correspondence only
     groups = [list(idl)]
     sub = [i for i in idl if rng.random() < 0.5]
     rng.shuffle(sub)
@@ -378,63 +380,16 @@ def classify(case, what):
     return "C13:" + what
 
 
-def oracle(case, real):
-    """evaluate the full property on the real results; returns list of (key, what, detail)"""
-    ref = Ref(case)
+def oracle_ordered(case, real, ref, root):
+    """ordered-segments clauses (valid on forests too: path lengths are measured from each tree's own root)"""
     fails = []
-    idl = ref.order
-    roots = ref.roots()
-    root = roots[0]
 
     def bad(what, text, detail):
         fails.append((classify(case, what), text, detail))
-    # effective proximal point
-    for i, p in real["aprox"]:
-        exp = [str(c) for c in ref.actual_prox(i)]
-        if p != exp:
-            bad("actual-proximal", "get_actual_proximal is not the point at fraction_along on the parent", {"seg": i, "got": p, "expected": exp})
-            break
-    # lengths (exact on this geometry)
-    for i, x in real["len"]:
-        if x is None or F(x) ** 2 != ref.length2(i):
-            bad("segment-length", "get_segment_length is not the distance actual proximal -> distal", {"seg": i, "got": x})
-            break
-    # adjacency list
-    exp_adj = {p: ref.children(p) for p in idl if ref.children(p)}
-    got_adj = None if real["adj"] is None else {k: v for k, v in real["adj"]}
-    if got_adj != exp_adj:
-        bad("adjacency", "adjacency list differs from the parent relation", {"got": real["adj"], "expected": exp_adj})
-    # root
-    if len(roots) == 1 and real["root"] != root:
-        bad("root", "get_morphology_root is not the segment without parent", {"got": real["root"], "expected": root, "exc": real["exc"].get("root")})
-    # branch points
-    exp_b = sorted(p for p in idl if len(ref.children(p)) >= 2)
-    if real["branch"] is None or sorted(real["branch"]) != exp_b or len(set(real["branch"])) != len(real["branch"]):
-        bad("branch-points", "branching points differ from segments with >= 2 children", {"got": real["branch"], "expected": exp_b})
-    # tips with distance from the root
-    exp_t = sorted([i, str(ref.to_prox(i))] for i in idl if not ref.children(i))
-    if real["tips"] is None or sorted(real["tips"]) != exp_t:
-        bad("tips", "extremities / their distances from the root differ from the definition", {"got": real["tips"], "expected": exp_t, "exc": real["exc"].get("tips")})
-    # distances from the root
-    for s, l in real["alld"]:
-        if s == root:
-            exp = sorted([i, str(ref.to_prox(i))] for i in idl)
-            if l != exp:
-                bad("all-distances", "distances from the root differ from the path lengths by definition", {"got": l, "expected": exp})
-    for s, d, x in real["dist"]:
-        if s == root and (x is None or F(x) != ref.to_prox(d)):
-            bad("distance-root", "get_distance from the root differs from the path length by definition", {"dst": d, "got": x, "expected": str(ref.to_prox(d))})
-            break
-    # segments at distance
-    for dd, s, l in real["atd"]:
-        if s == root:
-            exp = sorted([i, float(q)] for i, q in ref.at_distance(F(dd)).items())
-            if l != exp:
-                bad("at-distance", "segments at distance d differ from the definition", {"d": dd, "got": l, "expected": exp})
     # ordered segments: path lengths, cumulative lengths, order
     graph_prox = None
     for s, l in real["alld"]:
-        if s == root and l is not None:
+        if root is not None and s == root and l is not None:
             graph_prox = {k: v for k, v in l}
     for g, r in zip(case.get("groups", []), real["ordered"]):
         if r is None:
@@ -455,6 +410,67 @@ def oracle(case, real):
             bad("cumulative-lengths", "cumulative lengths are not the prefix sums in id order", {"group": g, "got": r["cum"], "expected": exp_c})
         if graph_prox is not None and any(graph_prox.get(k) != v for k, v in r["prox"]):
             bad("graph-vs-ordered", "graph-based and ordered-segments path lengths disagree", {"group": g})
+    return fails
+
+
+def oracle(case, real):
+    """evaluate the full property on the real results; returns list of (key, what, detail)"""
+    ref = Ref(case)
+    fails = []
+    idl = ref.order
+    roots = ref.roots()
+    root = roots[0]
+    tree = len(roots) == 1          # the root / tips / distance-from-root clauses are about trees
+
+    def bad(what, text, detail):
+        fails.append((classify(case, what), text, detail))
+    # effective proximal point
+    for i, p in real["aprox"]:
+        exp = [str(c) for c in ref.actual_prox(i)]
+        if p != exp:
+            bad("actual-proximal", "get_actual_proximal is not the point at fraction_along on the parent", {"seg": i, "got": p, "expected": exp})
+            break
+    # lengths (exact on this geometry)
+    for i, x in real["len"]:
+        if x is None or F(x) ** 2 != ref.length2(i):
+            bad("segment-length", "get_segment_length is not the distance actual proximal -> distal", {"seg": i, "got": x})
+            break
+    # adjacency list
+    # (as a relation: the order of the children inside a list is not part of the property)
+    exp_adj = {p: sorted(ref.children(p)) for p in idl if ref.children(p)}
+    got_adj = None if real["adj"] is None else {k: sorted(v) for k, v in real["adj"]}
+    if got_adj != exp_adj or any(len(set(v)) != len(v) for v in got_adj.values()):
+        bad("adjacency", "adjacency list differs from the parent relation", {"got": real["adj"], "expected": exp_adj})
+    # root
+    if len(roots) == 1 and real["root"] != root:
+        bad("root", "get_morphology_root is not the segment without parent", {"got": real["root"], "expected": root, "exc": real["exc"].get("root")})
+    # branch points
+    exp_b = sorted(p for p in idl if len(ref.children(p)) >= 2)
+    if real["branch"] is None or sorted(real["branch"]) != exp_b or len(set(real["branch"])) != len(real["branch"]):
+        bad("branch-points", "branching points differ from segments with >= 2 children", {"got": real["branch"], "expected": exp_b})
+    if not tree:
+        return fails + oracle_ordered(case, real, ref, None)
+    # tips with distance from the root
+    exp_t = sorted([i, str(ref.to_prox(i))] for i in idl if not ref.children(i))
+    if real["tips"] is None or sorted(real["tips"]) != exp_t:
+        bad("tips", "extremities / their distances from the root differ from the definition", {"got": real["tips"], "expected": exp_t, "exc": real["exc"].get("tips")})
+    # distances from the root
+    for s, l in real["alld"]:
+        if s == root:
+            exp = sorted([i, str(ref.to_prox(i))] for i in idl)
+            if l != exp:
+                bad("all-distances", "distances from the root differ from the path lengths by definition", {"got": l, "expected": exp})
+    for s, d, x in real["dist"]:
+        if s == root and (x is None or F(x) != ref.to_prox(d)):
+            bad("distance-root", "get_distance from the root differs from the path length by definition", {"dst": d, "got": x, "expected": str(ref.to_prox(d))})
+            break
+    # segments at distance
+    for dd, s, l in real["atd"]:
+        if s == root and F(dd) >= 0:
+            exp = sorted([i, float(q)] for i, q in ref.at_distance(F(dd)).items())
+            if l != exp:
+                bad("at-distance", "segments at distance d differ from the definition", {"d": dd, "got": l, "expected": exp})
+    fails += oracle_ordered(case, real, ref, root)
     # location info
     for i, r in real["loc"]:
         if r is None:
@@ -513,6 +529,8 @@ def eval_batch(cases, stream):
         count("segments:%s" % (n if n <= 6 else ("7-20" if n <= 20 else ("21-60" if n <= 60 else "61-200"))))
         rootid = [s["id"] for s in case["segs"] if s["par"] is None][0]
         count("root-id:" + ("0" if rootid == 0 else "nonzero"))
+        if sum(1 for s in case["segs"] if s["par"] is None) > 1:
+            count("forest(>1 root)")
         count("segments-without-proximal", sum(1 for s in case["segs"] if s["prox"] is None))
         # ---- correspondence
         S["corr"] += 1
@@ -642,7 +660,19 @@ def random_tree(rng, n):
     return [-1] + [rng.randrange(k) for k in range(1, n)]            # random recursive tree
 
 
+def random_forest_case(rng):
+    """two or three trees in one cell: get_morphology_root must refuse (assert), the rest still holds per tree"""
+    n = rng.randint(2, 14)
+    par = random_tree(rng, n)
+    for k in rng.sample(range(1, n), min(n - 1, rng.choice([1, 1, 2]))):
+        par[k] = -1
+    opts = [None] + [(rng.random() < 0.5, rng.choice(FRACS)) for _ in range(n - 1)]
+    return build_case(par, rng.choice(["identity", "reversed", "random"]), opts, rng)
+
+
 def random_case(rng, maxn):
+    if rng.random() < 0.06:
+        return random_forest_case(rng)
     n = rng.choice([1, 2, 3, 5, 8, 13, 21, 34, 60, 100, 150, 200]) if rng.random() < 0.5 else rng.randint(1, maxn)
     n = min(n, maxn)
     par = random_tree(rng, n)
